@@ -10,7 +10,7 @@
 from ..model import AnalysisError
 from ..terms import T, walk_terms
 from ..absint import TOP
-from ..walk import data_derives, ret_alts, call_parts, call_arg, is_call_to, const_val, NOVAL, strip_views, unwrap_gamma, is_conj, callee_name, ctx_tree
+from ..walk import data_derives, ret_alts, call_parts, call_arg, is_call_to, const_val, NOVAL, strip_views, unwrap_gamma, is_conj, callee_name, ctx_tree, newaxis_insertions
 from .. import ein, sel
 
 B = 'pb_bss.extraction.beamformer::'
@@ -106,13 +106,13 @@ def check_mvdr(run, A):
 
             def base_param(x):
                 x = strip_views(x)
-                while x.op in ('mu', 'gamma') or is_call_to(x, 'numpy.expand_dims'):
+                while x.op in ('mu', 'gamma') or newaxis_insertions(x) is not None:
                     if x.op == 'mu':
                         x = strip_views(x.args[0])
                     elif x.op == 'gamma':
                         x = strip_views(x.args[1])
                     else:
-                        x = strip_views(call_arg(x, 0))
+                        x = strip_views(newaxis_insertions(x)[0])
                 return x
             lb = base_param(l)
             exact = lb.op == 'param' and lb.args[0] == 'noise_psd_matrix' and derives(r, 'noise_psd_matrix') and \
@@ -133,8 +133,8 @@ def check_mvdr(run, A):
     run.check(ok, 'R-EIN', 'get_mvdr_vector: denominator a^H Phi^-1 a has exactly one conjugated side', s.loc, st['sub'],
               f'{st["sub"]!r} with {n_conj} conjugated operand(s): the distortionless constraint w^H a = 1 needs the sesquilinear inner product', construct=f'R-EIN::{q}::denominator')
     ret = strip_views(g.ret)
-    okr = ret.op == 'binop' and ret.args[0] == 'Div' and is_call_to(strip_views(ret.args[2]), 'numpy.expand_dims') and const_val(call_arg(strip_views(ret.args[2]), 1, 'axis')) == -1 \
-        and call_arg(strip_views(ret.args[2]), 0) is s.term
+    ins = newaxis_insertions(ret.args[2]) if ret.op in ('binop', 'iop') and ret.args[0] == 'Div' else None
+    okr = ins is not None and ins[1] == [-1] and strip_views(ins[0]) is s.term
     run.check(okr, 'R-ROLE', 'get_mvdr_vector: w = numerator / denominator[..., None]', fn.loc(), '', 'return value is not the numerator divided by the broadcast denominator',
               construct=f'R-ROLE::{q}::quotient')
 
